@@ -112,6 +112,33 @@ with unrec_fields (fs : fields) (vs : list val) {struct fs} : list val :=
   | _, _ => []
   end.
 
+(* side condition of the regrouping: the fields of an embedded *struct are of
+   nilable types (what pointerification guarantees outside slice elements),
+   so that "all hoisted values nil" means "nothing was set".  With a
+   non-nilable hoisted field the mangler allocates the embedded pointer even
+   when the enclosing plain struct is absent from the document. *)
+Definition nilable (t : ty) : bool :=
+  match t with TPtr _ | TSlice _ _ | TMap _ _ _ | TIface | TChan | TFunc => true | _ => false end.
+
+Fixpoint all_nilable (fs : fields) : bool :=
+  match fs with FNil => true | FCons _ _ _ t r => nilable t && all_nilable r end.
+
+Fixpoint anon_ok_ty (t : ty) {struct t} : bool :=
+  match t with
+  | TStruct fs _ => anon_ok fs
+  | TPtr t' => anon_ok_ty t'
+  | TSlice e _ => anon_ok_ty e
+  | TArray _ e => anon_ok_ty e
+  | _ => true
+  end
+with anon_ok (fs : fields) {struct fs} : bool :=
+  match fs with
+  | FNil => true
+  | FCons _ _ an t r =>
+      match an, t with true, TPtr (TStruct ifs _) => all_nilable ifs | _, _ => true end
+      && anon_ok_ty t && anon_ok r
+  end.
+
 (* Decoder{FlattenAnonymous: true}.Decode on the pointerified config type *)
 Definition e_dup_names : N := 4.
 
@@ -127,6 +154,12 @@ Definition decode_yaml_flat (d : doc) (pfs : fields) : outcome (list val) :=
 
 (* ---- specification: read the fields of an embedded struct / *struct from
    the enclosing mapping, one level; no type is rewritten ---- *)
+Fixpoint dec_docs (f : doc -> outcome val) (l : list doc) : outcome (list val) :=
+  match l with
+  | [] => Ok []
+  | x :: r => v <- f x ;; vs <- dec_docs f r ;; Ok (v :: vs)
+  end.
+
 Section Spec.
 Variables (nt nd : bool) (key : str -> list (str * str) -> str).
 
@@ -139,13 +172,10 @@ Fixpoint sflat_ty (d : doc) (t : ty) {struct t} : outcome val :=
   | TSlice (TStruct fs _) _ =>
       match d with
       | DList l =>
-          omap VList ((fix go (l : list doc) : outcome (list val) :=
-                         match l with
-                         | [] => Ok []
-                         | x :: r =>
-                             v <- match x with DMap kvs => omap VStruct (sflat_fields true kvs fs) | _ => Err 43 end ;;
-                             vs <- go r ;; Ok (v :: vs)
-                         end) l)
+          omap VList (dec_docs (fun x => match x with
+                                         | DMap kvs => omap VStruct (sflat_fields true kvs fs)
+                                         | _ => Err 43
+                                         end) l)
       | _ => Err 40
       end
   | _ => keyed_decode nt nd key d t
